@@ -43,13 +43,20 @@ def convX (T : ExpTab K) (j u : Nat) : K :=
 def convY (T : ExpTab K) (j u : Nat) : K :=
   T.y (j - 1) * CNum.ofNat 18446744073709551616 + (T.y j - T.y (j - 1)) * CNum.ofNat u
 
+/-- `if (u_cand_y > UINT64_MAX - u_cand_x) { u_cand_y = UINT64_MAX - u_cand_y; u_cand_x = UINT64_MAX - u_cand_x; }` -/
+def reflect (ucx ucy : Nat) : Nat × Nat :=
+  if ucy > M64 - ucx then (M64 - ucx, M64 - ucy) else (ucx, ucy)
+
+/-- the alias step: `jdx = u & 0xff; jdx = (sfc64() >= prob[jdx]) ? alias[jdx] : jdx` -/
+def aliasStep (T : ExpTab K) (r0 r1 : Nat) : Nat :=
+  if r1 ≥ T.prob (r0 % 256) then T.alias (r0 % 256) else r0 % 256
+
 /-- the rejection loop inside overhang `jdx`; returns the accepted x (without the tail offset) and the draw counter -/
 def overhang (T : ExpTab K) (fexp : K → K) (raw : Nat → Nat) (jdx : Nat) : Nat → Nat → Nat → Nat → Option (K × Nat)
   | 0, _, _, _ => none
   | f + 1, k, ucx, ucy =>
-    let refl := decide (ucy > M64 - ucx)
-    let ucy' := if refl then M64 - ucy else ucy
-    let ucx' := if refl then M64 - ucx else ucx
+    let ucx' := (reflect ucx ucy).1
+    let ucy' := (reflect ucx ucy).2
     let udist := (M64 - ucx') - ucy'
     if udist ≥ T.conc jdx then some (convX T jdx ucx', k)
     else
@@ -63,8 +70,7 @@ def notHot (T : ExpTab K) (fexp : K → K) (raw : Nat → Nat) : Nat → Nat →
   | 0, _, _, _ => none
   | f + 1, k, ucx, xoff =>
     let ucy := raw k
-    let j0 := ucy % 256
-    let jdx := if raw (k + 1) ≥ T.prob j0 then T.alias j0 else j0
+    let jdx := aliasStep T ucy (raw (k + 1))
     if jdx > 0 then
       match overhang T fexp raw jdx f (k + 2) ucx ucy with
       | none => none
